@@ -73,6 +73,16 @@ func isHeaderKeyCaseVariant(key string) bool {
 	return false
 }
 
+// isHeaderKey reports whether key is one of the headerKeys.
+func isHeaderKey(key string) bool {
+	for _, headerKey := range headerKeys {
+		if key == headerKey {
+			return true
+		}
+	}
+	return false
+}
+
 func populateProtectedHeaders(protectedHeader *jwsProtectedHeader, signerInfo *signature.SignerInfo) error {
 	err := validateProtectedHeaders(protectedHeader)
 	if err != nil {
@@ -265,7 +275,19 @@ func getSignedAttributes(req *signature.SignRequest, algorithm string) (map[stri
 		return nil, fmt.Errorf("unexpected error occurred while creating protected headers, Error: %s", err.Error())
 	}
 
-	return mergeMaps(m, extAttrs)
+	signedAttrs, err := mergeMaps(m, extAttrs)
+	if err != nil {
+		return nil, err
+	}
+	// mergeMaps only detects a collision with a header that this request
+	// emits. A key naming any other specification-defined header (e.g. the
+	// expiry header of a request without expiry) must be refused as well.
+	for key := range extAttrs {
+		if isHeaderKey(key) || isHeaderKeyCaseVariant(key) {
+			return nil, fmt.Errorf("attribute key:%s is reserved by the signature specification", key)
+		}
+	}
+	return signedAttrs, nil
 }
 
 func convertToMap(i interface{}) (map[string]interface{}, error) {
